@@ -6,7 +6,7 @@ META = {
     "property_id": "C44",
     "level": "model_checking",
     "technique": "TLA+ spec of the RLPx handshake and framing with chained MAC/CTR state and an active adversary (RLPx.tla) model-checked with TLC; every adversary scenario TLC enumerates (position class of the modified byte in auth/ack/frame, invalid curve points from malicious peers) executed on real rlpx.Conn pairs through a re-chunking, bit-flipping proxy",
-    "text": "RLPx.tla models auth/ack packets (size prefix, ECIES ephemeral key, IV, ciphertext, MAC), per-direction frame streams with the sender's and receiver's running MAC hash, AES-CTR position and frame alignment, and what readFrame does to that state when a header MAC or frame MAC check fails. TLC checks on all interleavings of writes, reads and modifications that delivered messages are a prefix of the written ones, that nothing is delivered after a modification (no resynchronisation), that the modification is reported, and that a session exists only after an unmodified handshake with the true keys. Each complete run is emitted as a test case and executed on real rlpx.Conn endpoints: the proxy flips a seeded bit inside the TLC-chosen position class and re-chunks the stream (byte-wise, block-boundary, random), message codes and payload sizes are drawn from boundary classes around the 16-byte padding, 2^16 and the 24-bit frame limit, with snappy on and off.",
+    "text": "RLPx.tla models auth/ack packets (size prefix, ECIES ephemeral key, IV, ciphertext, MAC), per-direction frame streams with the sender's and receiver's running MAC hash, AES-CTR position and frame alignment, and what readFrame does to that state when a header MAC or frame MAC check fails. TLC checks on all interleavings of writes, reads and modifications that delivered messages are a prefix of the written ones, that nothing is delivered after a modification (no resynchronisation), that the modification is reported, and that a session exists only after an unmodified handshake with the true keys. Each complete run is emitted as a test case and executed on real rlpx.Conn endpoints: the proxy flips a seeded bit inside the TLC-chosen position class and re-chunks the stream (byte-wise, block-boundary, random), message codes and payload sizes are drawn from boundary classes around the 16-byte padding, 2^16 and the 24-bit frame limit, with snappy on and off; untampered bursts of a frame larger than 256 KiB followed at once by small messages are delivered as one write or cut a few bytes behind the frame boundary.",
     "note": "Trusts TLC, the proxy's frame-offset arithmetic in harness/cmd/c44 (checked against the wire size Conn.Write returns), abstract ECIES/MAC (a modified region never verifies). A modified handshake packet is followed by a connection cut so that no timeout is needed. p2p/transport.go's message framing above rlpx (rlp.Encode of the payload) is not driven.",
     "design_ref": "3.7 C44",
 }
